@@ -79,11 +79,19 @@ End Skel.
 Fixpoint peel (t : src) : src :=
   match t with SBox x | SCow x => peel x | _ => t end.
 
-Definition field_conv_okb (f : sfield) : bool :=
+Definition field_conv_core (f : sfield) : bool :=
   match sf_ty f with
   | SCompactT _ | SCow (SCompactT _) => negb (sf_compact_attr f)
   | t => match peel t with SCompactT _ => false | _ => true end
   end.
+
+(** ... and a compact field does not mention [Box] ([#[codec(compact)] x: Box<u32>] does not compile in
+    the source either: [Box<u32>] is not [HasCompact]); since the F21 repair the generator prints a
+    compact field without the [Box] wrapper, which [expected_item] does not describe *)
+Definition field_conv_okb (f : sfield) : bool :=
+  field_conv_core f &&
+  negb ((sf_compact_attr f || match sf_ty f with SCompactT _ | SCow (SCompactT _) => true | _ => false end)
+        && has_box (sf_ty f) && sf_type_name f).
 
 (** every application names a definition with a non-empty path *)
 Fixpoint apps_okb (defs : list sdef) (t : src) : bool :=
